@@ -20,7 +20,7 @@ import (
 func main() {
 	// Every scenario is sequenced by quiescent points, each of which stops the world at least twice; with one
 	// worker process per core a small GOMAXPROCS makes that several times cheaper and changes no verdict.
-	procs := 2
+	procs := 1
 	if v, err := strconv.Atoi(os.Getenv("C08_GOMAXPROCS")); err == nil && v > 0 {
 		procs = v
 	}
@@ -64,12 +64,12 @@ func run(r *vk.Run) {
 	r.Require("fold-checks/lossy", r.Pick(50000, 500000))
 	r.Require("lossy-drains-covering-2+-writes", r.Pick(5000, 50000))
 	r.Require("seed-checks/non-empty", r.Pick(5000, 50000))
-	r.Require("predicate-calls/absent-value", r.Pick(10000, 100000))
+	r.Require("table-checks/nil-matching-predicate", r.Pick(10000, 100000))
 	r.Require("read-mask-runs/drops-predicate-field", r.Pick(5000, 50000))
-	r.Require("booking/fold-checks", r.Pick(3000, 100000))
-	r.Require("booking/list-checks/non-trivial", r.Pick(1000, 30000))
-	r.Require("booking/events/ADD-by-filter", r.Pick(100, 3000))
-	r.Require("booking/events/REMOVE-by-filter", r.Pick(100, 3000))
-	r.Require("booking/expected/UPDATE", r.Pick(300, 10000))
-	r.Require("booking/expected/none(excl-excl)", r.Pick(300, 10000))
+	r.Require("booking/fold-checks", r.Pick(10000, 400000))
+	r.Require("booking/list-checks/non-trivial", r.Pick(3000, 100000))
+	r.Require("booking/events/ADD-by-filter", r.Pick(200, 8000))
+	r.Require("booking/events/REMOVE-by-filter", r.Pick(200, 8000))
+	r.Require("booking/expected/UPDATE", r.Pick(800, 30000))
+	r.Require("booking/expected/none(excl-excl)", r.Pick(800, 30000))
 }
